@@ -250,6 +250,56 @@ def compare(ctx, tree, cases, render, expect, mainfn, tag, sigfn, first=0, prelu
 
 
 
+
+# ----------------------------------------------- switch: controlling types x value embeddings
+# abstract case/controlling values 0..3 of the "switch" profile -> C constants, increasing in the
+# promoted controlling type, so that the Level A trace of the abstract program stays the trace
+EMBED = [
+    ("char", ["-128", "-1", "0", "127"]), ("char", ["-3", "-2", "5", "6"]),
+    ("unsigned char", ["0", "1", "200", "255"]),
+    ("short", ["-32768", "-1", "1", "32767"]),
+    ("int", ["(-2147483647-1)", "-1", "0", "2147483647"]), ("int", ["-5", "3", "4", "100"]),
+    ("unsigned", ["0", "1", "2147483648u", "4294967295u"]), ("unsigned", ["0u", "5u", "0x7fffffffu", "0x80000000u"]),
+    ("unsigned", ["0", "5", "-2", "-1"]),
+    ("long", ["-0x100000001L", "-1L", "0x7fffffffL", "0x100000000L"]),
+    ("long", ["(-0x7fffffffffffffffL-1)", "0L", "0x80000000L", "0x7fffffffffffffffL"]),
+    ("long", ["0L", "1L", "0x100000000L", "0x100000001L"]), ("long", ["-7L", "-6L", "8L", "9L"]),
+    ("unsigned long", ["0UL", "0xffffffffUL", "0x100000000UL", "0xffffffffffffffffUL"]),
+    ("unsigned long", ["1UL", "2UL", "0x8000000000000000UL", "0xfffffffffffffffeUL"]),
+    ("unsigned long", ["0", "5", "-2", "-1"]),
+]
+
+
+def c_int(txt):
+    t = txt.strip("()").rstrip("uUlL")
+    if t.endswith("-1") and t.startswith("-0x7fffffffffffffffL"):
+        return -(1 << 63)
+    if t == "-2147483647-1":
+        return -(1 << 31)
+    return int(t, 0)
+
+
+def typed_switch_cases(progs):
+    out = []
+    for c in progs:
+        ks = [n["k"] for n in c["p"]]
+        if "Switch" not in ks:
+            continue
+        used = set()
+        for n in c["p"]:
+            if n["k"] in ("Case", "Switch"):
+                used.add(n["a"])
+            if n["k"] == "CaseR":
+                used |= {n["a"], n["b"]}
+        for ei, (ty, vm) in enumerate(EMBED):
+            if "-" in vm[2] and ty.startswith("unsigned") and "CaseR" in ks:
+                continue            # `case 5 ... -2` is only a range after conversion; gcc rejects it as empty
+            wide = ty.endswith("long") and any(not -(1 << 31) <= c_int(vm[v]) < (1 << 31) for v in used)
+            big32 = ty == "unsigned" and "CaseR" in ks and any(c_int(vm[v]) >= (1 << 31) for v in used)
+            sig = ("case-label-beyond-int:" if wide or big32 else "") + ty.replace(" ", "-")
+            out.append(dict(p=c["p"], tr=c["tr"], sw=[ty, vm], swsig=sig, emb=ei))
+    return out
+
 # ------------------------------------------------------------------ scope histories -> C
 SPRELUDE = r"""
 int printf(const char *, ...);
@@ -262,7 +312,9 @@ def probe_c(name, exp):
     o = exp["ord"]
     oe = "0" if o["k"] == "none" else ("(int)sizeof(%s)" % name if o["k"] == "typedef" else "(int)%s" % name)
     te = "(int)sizeof(struct %s)" % name if exp["tag"] else "0"
-    return ' printf(" %%d %%d", %s, %s);' % (oe, te)
+    # a statement that begins with the identifier: parsed as a declaration if it were taken for a typedef name
+    st = " %s += 0;" % name if o["k"] == "obj" else ""
+    return st + ' printf(" %%d %%d", %s, %s);' % (oe, te)
 
 
 def probe_exp(exp):
@@ -346,18 +398,26 @@ def scope_sig(c, exp, got):
 def run_scope(ctx, tree):
     q = ctx.quick
     out = os.path.join(ctx.scratch, "scope.ndjson")
-    cfg = ctx.cfg("flow", "Scope_mc.cfg", MaxDecl=3, MaxOpen=3 if q else 4, Emit=True)
-    g = ctx.tlc("flow", "Scope", cfg, env=dict(OUT=out), workers=4, heap="3g", timeout=3000)
-    if not g.ok:
-        p = ctx.replay_dir("tlc-Scope")
-        open(p + "/counterexample.txt", "w").write(g.trace_text())
-        json.dump(dict(kind="tlc", area="flow", module="Scope"), open(p + "/case.json", "w"))
-        ctx.report("tlc:Scope:%s" % g.violated, "chibicc's scope chain (Level I) binds differently from the innermost-visible rule (Level A)", p)
+    hs = []
+    # the replayed domain: every history with <= 3 opened constructs; thorough additionally model
+    # checks 4 opened constructs and replays a seed-selected tenth of those histories
+    for mo, stride in ((3, 1),) if q else ((3, 1), (4, 10)):
+        out = os.path.join(ctx.scratch, "scope%d.ndjson" % mo)
+        cfg = ctx.cfg("flow", "Scope_mc.cfg", MaxDecl=3, MaxOpen=mo, Emit=True)
+        g = ctx.tlc("flow", "Scope", cfg, env=dict(OUT=out), workers=4, heap="3g", timeout=3000)
+        if not g.ok:
+            p = ctx.replay_dir("tlc-Scope")
+            open(p + "/counterexample.txt", "w").write(g.trace_text())
+            json.dump(dict(kind="tlc", area="flow", module="Scope"), open(p + "/case.json", "w"))
+            ctx.report("tlc:Scope:%s" % g.violated, "chibicc's scope chain (Level I) binds differently from the innermost-visible rule (Level A)", p)
+        got = vt.read_ndjson(out)
+        if mo == 4:
+            got = [h for h in got if sum(1 for ev in h["h"] if ev["e"] == "open") == 4]
+        hs += vt.subsample(got, ctx.seed, stride)
     for v in ("for-noleave", "typedef-own-map"):
         r = ctx.tlc("flow", "Scope", ctx.cfg("flow", "Scope_mc.cfg", MaxDecl=2, Variant='"%s"' % v), workers=2, heap="1g", count=False)
         if r.ok:
             raise Infra("sensitivity control failed: TLC accepts the wrong scope chain '%s'" % v)
-    hs = vt.read_ndjson(out)
     if len(hs) < 500:
         raise Infra("Scope generator wrote only %d histories" % len(hs))
     # each history also gets the second function g
@@ -371,6 +431,50 @@ def run_scope(ctx, tree):
             nontrivial=lambda c: sum(1 for ev in c["h"] if ev["e"] == "decl" or ev["p"]) >= 2)
     ctx.phase("scope replay")
     return len(hs), len(sel)
+
+
+# ------------------------------------------------ optional: label/jump skeleton of the emitted -S
+JMP = re.compile(r"^\s+(j[a-z]+|lea)\s+(\.L[\w.$]*)")
+LBL = re.compile(r"^(\.L[\w.$]*):")
+
+
+def asm_skeleton(ctx, tree, cases, render, mainfn, prelude, tag):
+    """compile one batch with -S, reduce it to label/jump events, let TLC (AsmSkel.tla) check that
+    every label is defined once and every jump target is defined"""
+    d = ctx.tmp("skel-" + tag)
+    src = d + "/s.c"
+    with open(src, "w") as f:
+        f.write(prelude + "".join(render(i, c) for i, c in cases) + mainfn(cases))
+    p = vt.run_limited([tree + "/chibicc", "-I" + tree + "/include", "-S", "-o", d + "/s.s", src], timeout=120)
+    if p.returncode != 0:
+        return                     # the replay reports compile failures
+    evs = []
+    for line in open(d + "/s.s"):
+        m = LBL.match(line)
+        if m:
+            evs.append(dict(e="label", l=m.group(1)))
+            continue
+        m = JMP.match(line)
+        if m and not m.group(2).startswith(".L.return"):
+            evs.append(dict(e="jump", l=m.group(2)))
+    evs.append(dict(e="end", l=""))
+    if len(evs) < 10:
+        raise Infra("assembly skeleton of %s has only %d events" % (tag, len(evs)))
+    tf = d + "/skel.ndjson"
+    vt.write_ndjson(tf, evs)
+    res = ctx.tlc("flow", "AsmSkel", "AsmSkel.cfg", env=dict(TRACE=tf), workers=1, heap="1g", timeout=600)
+    if not (res.ok and res.depth == len(evs) + 1):
+        res2 = ctx.tlc("flow", "AsmSkel", "AsmSkel.cfg", env=dict(TRACE=tf), workers=1, heap="1g", timeout=600, count=False)
+        if res2.depth != res.depth:
+            raise Infra("skeleton validation not reproducible")
+        bad = evs[res.depth - 1] if res.depth - 1 < len(evs) else None
+        rp = ctx.replay_dir("skeleton-" + tag)
+        os.replace(tf, rp + "/skel.ndjson")
+        os.replace(src, rp + "/s.c")
+        json.dump(dict(kind="skeleton", rejected_event=bad, matched=res.depth - 1), open(rp + "/case.json", "w"))
+        ctx.report("skeleton:%s" % (bad or {}).get("e"), "label/jump skeleton of the emitted assembly is not well formed at event %s" % bad, rp)
+    ctx.cov["traces_validated_against_impl"] += 1
+    ctx.cov["skeleton_events"] = ctx.cov.get("skeleton_events", 0) + len(evs)
 
 # ------------------------------------------------------------------------ profiles
 ALLK = ["Mark", "Seq", "If", "IfElse", "While", "Do", "For", "Switch", "Case", "CaseR", "Default", "Break", "Continue",
@@ -387,17 +491,25 @@ def iset(xs):
 
 # name -> (Kinds, LoopConds, LoopB, SwVals, CaseVals, NLab, MaxN quick, MaxN thorough, MaxD)
 PROFILES = {
-    "all":    (ALLK, [0, 2, 9], [0, 3], [1], [0, 1, 2], 1, 4, 4, 4),
-    "loops":  (["Mark", "Seq", "If", "T", "While", "Do", "For", "Break", "Continue"], [2], [0, 3], [1], [1], 1, 5, 6, 4),
-    "switch": (["Mark", "Seq", "Switch", "Case", "CaseR", "Default", "Break"], [2], [0], [0, 1, 2, 3], [0, 1, 2, 3], 1, 5, 6, 4),
-    "swloop": (["Mark", "Seq", "Switch", "Case", "Default", "Break", "Continue", "While", "For"], [2], [0], [1], [1, 2], 1, 5, 6, 4),
-    "expr":   (["Expr", "T", "F", "Not", "And", "Or", "Cond", "Comma", "SE", "Mark", "If"], [2], [0], [1], [1], 1, 5, 6, 5),
-    "goto":   (["Mark", "Seq", "If", "CntLt", "Goto", "GotoStar", "Label", "While", "Break"], [2], [0], [1], [1], 2, 5, 6, 4),
+    "all":    (ALLK, [0, 2, 9], [0, 3], [1], [0, 1, 2], 1, 4, 5, 4),
+    "loops":  (["Mark", "Seq", "If", "T", "While", "Do", "For", "Break", "Continue"], [2], [0, 3], [1], [1], 1, 6, 7, 4),
+    "switch": (["Mark", "Seq", "Switch", "Case", "CaseR", "Default", "Break"], [2], [0], [0, 1, 2, 3], [0, 1, 2, 3], 1, 6, 7, 4),
+    "swloop": (["Mark", "Seq", "Switch", "Case", "Default", "Break", "Continue", "While", "For"], [2], [0], [1], [1, 2], 1, 6, 7, 4),
+    "expr":   (["Expr", "T", "F", "Not", "And", "Or", "Cond", "Comma", "SE", "Mark", "If"], [2], [0], [1], [1], 1, 7, 8, 5),
+    "sejump": (["Mark", "Seq", "Expr", "SE", "T", "F", "And", "Goto", "Label", "While", "Break", "Continue"], [2], [0], [1], [1], 1, 6, 7, 5),
+    "goto":   (["Mark", "Seq", "If", "CntLt", "Goto", "GotoStar", "Label", "While", "Break"], [2], [0], [1], [1], 2, 6, 7, 4),
+}
+
+
+# small alphabets for the sensitivity controls only
+CTL_PROFILES = {
+    "swmini":   (["Mark", "Seq", "Switch", "Case", "CaseR", "Default"], [2], [0], [2], [1, 2], 1, 6, 6, 4),
+    "loopmini": (["Mark", "Seq", "While", "Switch", "Break", "Continue"], [2], [0], [1], [1], 1, 5, 5, 4),
 }
 
 
 def flow_cfg(ctx, name, maxn, variant="ok", emit=True):
-    ks, lc, lb, sv, cvs, nl, _, _, md = PROFILES[name]
+    ks, lc, lb, sv, cvs, nl, _, _, md = (PROFILES.get(name) or CTL_PROFILES[name])
     return ctx.cfg("flow", "CFlow_mc.cfg", name="CFlow-" + name, MaxN=maxn, MaxD=md, Kinds=kset(ks), LoopConds=iset(lc),
                    LoopB=iset(lb), SwVals=iset(sv), CaseVals=iset(cvs), NLab=nl, Variant='"%s"' % variant, Emit=emit)
 
@@ -413,13 +525,20 @@ def flow_sig(c, exp, got):
     return "flow:basic"
 
 
+PAR = int(os.environ.get("VERIF_C03_PAR", "3"))      # concurrent TLC runs (2 workers each)
+
+
 def run_flow(ctx, tree):
     q = ctx.quick
-    progs = {}
+    jobs = []
     for name, prof in PROFILES.items():
-        out = os.path.join(ctx.scratch, "flow-%s.ndjson" % name)
-        cfg = flow_cfg(ctx, name, prof[6] if q else prof[7])
-        g = ctx.tlc("flow", "CFlow", cfg, env=dict(OUT=out), workers=4, heap="6g", timeout=3000)
+        jobs.append((name, flow_cfg(ctx, name, prof[6] if q else prof[7]), os.path.join(ctx.scratch, "flow-%s.ndjson" % name)))
+
+    def one(j):
+        name, cfg, out = j
+        return name, out, ctx.tlc("flow", "CFlow", cfg, env=dict(OUT=out), workers=2, heap="3g", timeout=3000)
+    progs = {}
+    for name, out, g in vt.pmap(one, jobs, workers=PAR):
         if not g.ok:
             p = ctx.replay_dir("tlc-CFlow-" + name)
             open(p + "/counterexample.txt", "w").write(g.trace_text())
@@ -428,20 +547,21 @@ def run_flow(ctx, tree):
         progs[name] = vt.read_ndjson(out)
         if len(progs[name]) < 50:
             raise Infra("CFlow profile %s wrote only %d programs" % (name, len(progs[name])))
-        ctx.phase("CFlow " + name)
+    ctx.phase("CFlow profiles")
     return progs
 
 
-CONTROLS = [("loops", 5, "norestore-cont"), ("loops", 5, "norestore-brk"), ("switch", 5, "norestore-sw"),
-            ("expr", 4, "and-or-mixup"), ("switch", 6, "default-first"), ("switch", 4, "range-open")]
+CONTROLS = [("loopmini", 5, "norestore-cont"), ("loopmini", 5, "norestore-brk"), ("swmini", 6, "norestore-sw"),
+            ("expr", 4, "and-or-mixup"), ("swmini", 6, "default-first"), ("swmini", 4, "range-open")]
 
 
 def run_controls(ctx):
     def one(t):
-        name, n, v = t
-        r = ctx.tlc("flow", "CFlow", flow_cfg(ctx, name, n, variant=v, emit=False), workers=1, count=False, timeout=1500)
+        name, n, v, cfg = t
+        r = ctx.tlc("flow", "CFlow", cfg, workers=1, heap="1g", count=False, timeout=1500)
         return v, r.ok
-    for v, ok in vt.pmap(one, CONTROLS if not ctx.quick else CONTROLS[:4], workers=4):
+    cs = [(name, n, v, flow_cfg(ctx, name, n, variant=v, emit=False)) for name, n, v in CONTROLS]
+    for v, ok in vt.pmap(one, cs, workers=PAR + 1):
         if ok:
             raise Infra("sensitivity control failed: TLC accepts the wrong lowering '%s'" % v)
     ctx.phase("CFlow controls")
@@ -463,17 +583,36 @@ def run(ctx):
     ctx.sample(dict(kind="flow", profile=mid["prof"], c_source=render_flow(0, mid), expected=expect_flow(0, mid)))
     compare(ctx, tree, sel, render_flow, expect_flow, main_flow, "flow", flow_sig,
             nontrivial=lambda c: len(c["p"]) >= 3)
+    asm_skeleton(ctx, tree, list(enumerate(vt.subsample(sel, ctx.seed, max(1, len(sel) // 150)))), render_flow, main_flow, PRELUDE, "flow")
     ctx.phase("flow replay")
+    # switch: width arithmetic (scaled model), then the real widths by replay
+    ctx.tlc_expect_ok("flow", "SwitchCmp", "SwitchCmp.cfg", "the case compare (Level I) differs from 6.8.4.2 (Level A)", workers=2, heap="1g")
+    if ctx.tlc("flow", "SwitchCmp", ctx.cfg("flow", "SwitchCmp.cfg", FIXED=False), workers=1, heap="1g", count=False).ok:
+        raise Infra("sensitivity control failed: TLC accepts case labels stored in int")
+    typed = typed_switch_cases([c for c in progs["switch"] if len(c["p"]) <= (5 if q else 6)])
+    tsel = vt.subsample(typed, ctx.seed, 24 if q else 2)
+    ctx.sample(dict(kind="switch", c_source=render_flow(0, tsel[len(tsel) // 3]), expected=expect_flow(0, tsel[len(tsel) // 3])))
+    compare(ctx, tree, tsel, render_flow, expect_flow, main_flow, "switch", flow_sig, first=1000000)
+    ctx.phase("typed switch replay")
+    nh, nhs = run_scope(ctx, tree)
+    ctx.assumptions += [
+        "Level A (CFlow.tla, Scope.tla) was validated against gcc 12 on every generated program / history of the thorough domain at development time; at check time gcc only discards vectors on which it disagrees with the spec",
+        "marks are calls of an external-linkage-free function M(id) that appends to a buffer; the observable is the printed buffer",
+        "not generated (outside GNU C or rejected by gcc): labels and case labels inside statement expressions that are jumped to from outside; loops whose Level A run exceeds the fuel bound; ranges that are empty before conversion to an unsigned controlling type",
+        "scope histories use one identifier per history (renamed per case so that hundreds of histories share a translation unit)"]
     return ctx.finish(
-        rule="case = one complete program of CFlow.tla compiled by the tree's chibicc, its printed mark trace compared with the Level A trace; non-trivial = at least 3 nodes; distinct = distinct program",
-        exhaustive=not q, extra=dict(flow_programs=len(allp), flow_replayed=len(sel)))
+        rule="case = one complete program of CFlow.tla (per profile, and per controlling type x value embedding for the switch profile) or one history of Scope.tla, compiled by the tree's chibicc; the printed mark trace / bound declarations are compared with Level A; non-trivial = at least 3 statement nodes / 2 declarations; distinct = distinct program, embedding or history",
+        exhaustive=not q, extra=dict(flow_programs=len(allp), flow_replayed=len(sel), typed_switch_programs=len(typed),
+                                     typed_switch_replayed=len(tsel), scope_histories=nh, scope_replayed=nhs))
 
 
 def replay(ctx, path):
     c = json.load(open(os.path.join(path, "case.json")))
     c = c.get("case") or c
     tree = ctx.build()
-    if c.get("kind") in ("flow", "switch"):
+    if c.get("kind") == "scope":
+        compare(ctx, tree, [c["case"]], render_scope, expect_scope, main_scope, "scope", scope_sig, first=c.get("index", 0), prelude=SPRELUDE)
+    elif c.get("kind") in ("flow", "switch"):
         compare(ctx, tree, [c["case"]], render_flow, expect_flow, main_flow, c["kind"], flow_sig, first=c.get("index", 0))
     elif c.get("kind") == "tlc":
         print("re-run: ./check C03 (profile %s)" % c.get("profile"))
